@@ -37,7 +37,7 @@ CHECKS["C03"] = CodecCheck(
     "C03", {"equiv", "equiv-layout", "compilable", "load"},
     rule=RAND_RULE + "every scenario is run through both readers; non-trivial = the definition was compiled (not fallen back) "
          "and the compiled run was compared with the interpreted run and with Decode",
-    quick_n=1500, thorough_n=40000, both=True, compiled=True, assumptions=DOMAIN,
+    quick_n=1200, thorough_n=40000, both=True, compiled=True, assumptions=DOMAIN, quick_pairs=700,
     nontrivial=lambda r: bool(r.get("obs", {}).get("compiled")))
 
 
@@ -45,7 +45,9 @@ def c04_extra(rep, rnd, first_id):
     n = 6000 if rep.tier == "thorough" else 400
     recs = codec.random_batch(n, rnd.randrange(1 << 30), {"null": False, "eof": False, "expr": False, "leb": False},
                               first_id=first_id)
-    return [codec.enrich(r, sizeof=True) for r in recs]
+    cabi = codec.ctypes_records(3000 if rep.tier == "thorough" else 300, rnd.randrange(1 << 30), first_id=first_id + n)
+    rep.extra["ctypes_layouts_validating_the_spec"] = len(cabi)
+    return [codec.enrich(r, sizeof=True) for r in recs] + cabi
 
 
 CHECKS["C04"] = CodecCheck(
@@ -244,6 +246,7 @@ from harness.checks_incremental import IncrementalCheck  # noqa: E402
 
 CHECKS["C18"] = IncrementalCheck()
 CHECKS["C04"].mc_models = ("MC_Codec", "MC_Layout")
+CHECKS["C03"].mc_models = ("MC_Codec", "MC_Plan")
 CHECKS["C06"].mc_models = ("MC_Codec", "MC_Bits", "MC_Layout")
 
 
